@@ -132,4 +132,24 @@ META = {
         "text": "Every horizon/percentage 0..=64 for 26 prices (incl. 2^53+-1, the compensation cutoff, u64::MAX) through cumulative_percentage_change, AlgorithmV1::worst_case (exec and DA) and UniversalGasPriceProvider::worst_case_gas_price is total, monotone in the horizon and >= exact saturating integer compounding, except the documented f64-precision class (<= 2^-40 relative above 2^46; open known finding).",
         "note": "Trusted: oracle = saturating c + floor(c*q/100) per block. The table-edge panic found by this monitor was repaired by a fix: commit.",
     },
+
+    "C24": {
+        "ready": True,
+        "technique": "runtime monitoring: the real fuel_core_poa service (MainTask + SyncTask under ServiceRunner) driven through harness-implemented ports on a paused tokio clock by seeded schedules of triggers, manual requests, network/reconciliation/predefined blocks, clock changes and port faults; offline oracle over the recorded port-call history",
+        "text": "In every produced execution (6.4k schedules quick / 48k thorough, ~70% non-trivial and distinct) each produce/commit request was at exactly the next height after what the task had been told (start header, own successful commits, successful reconciliation imports, latest_block_height replies), or within the envelope of headers still in flight on the block stream; committed timestamps never decreased along the task's own chain nor below a synced header it built on; every committed block was the producer's block, sealed by the signer for exactly that block between production and commit (signature verified); after a failed production/timeout/seal/commit (incl. lost acknowledgements) the next attempt stayed at the same height and no time from a failed attempt leaked; under Trigger::Interval every trigger-produced block started >= block_time of virtual time after its committed predecessor. Nothing is claimed about schedules not generated.",
+        "note": "Trusted: the mock ports/mock chain (accepts only tip+1 like the real importer; delivers valid chain continuations), the event recorder, the oracle's knowledge model (must-know vs may-know heights), tokio's paused-time semantics. Interval spacing is judged only for pairs without a foreign block in between; reconciliation imports after a failed import in the same batch are not judged. The harness empties fuel-core's global metrics registry between schedules (performance only).",
+    },
+    "C41": {
+        "ready": True,
+        "technique": "runtime monitoring: the real ServiceRunner over a scripted RunnableService/RunnableTask with 1-3 client tasks issuing start/stop/await in seeded orders; deterministic mode (current-thread runtime, paused time, seeded yields) and stress mode (4-thread runtime, distinct interleaving signatures counted); offline oracle over the recorded history",
+        "text": "In all produced executions (64k cases quick / 1.12M thorough; 37k deterministic and 22k multi-threaded distinct interleavings in quick) observed states only moved forward through NotStarted<Starting<Started<Stopping<Stopped/StoppedWithError and never changed once stopped; no hook ran after a stopped state was observed; no run was entered after a hook returned following a recorded stop; into_task and shutdown ran at most once; await_stop/stop_and_await/StateWatcher waits only ever returned stopped states and, in deterministic mode, always resolved after stop was requested (1 h virtual time, all tasks idle), for init ok/err/panic/slow, run continue/stop/error/panic/blocks-until-stop, shutdown ok/err/panic/slow. One defect found by this monitor (StateWatcher::wait_stopping_or_stopped never resolving) was repaired by a fix: commit.",
+        "note": "Trusted: the scripted hooks are finite in virtual time, tokio paused-time auto-advance, the shared logical clock used to order cross-thread observations. Liveness is judged only in deterministic mode; in stress mode a hung case is 'inconclusive'. 'Shutdown exactly once' and Stopped-vs-StoppedWithError consistency are not part of the statement and not judged.",
+    },
+
+    "C25": {
+        "ready": True,
+        "technique": "runtime monitoring: real RedisLeaderLeaseAdapter replicas over loopback TCP against in-process fake Redis nodes executing the repo's real Lua scripts; seeded fault switchboard plus directed adversarial scenarios; offline history oracle",
+        "text": "In every explored run no two replicas committed different blocks at one height, no atomic snapshot of the nodes showed two block ids of one height each on a quorum, and no node's fencing epoch ever decreased while it kept its data. A quick run covers 12 directed scenarios and 16 universes of 22 s, with 2-3 replicas and 3-5 nodes each; faults: partitions, lost requests and replies, late script execution after client timeout, resets, forced lease expiry, data loss on <= budget nodes, replica crashes, crash between publish and commit. Runs without elections, publishes, rejections of each kind, repairs, late writes, wipes or completed scenarios are inconclusive. The fork defect found by this monitor (write_block.lua early exit) was repaired by a fix: commit.",
+        "note": "Trusted base: a self-written Redis emulation (RESP2 framing, EVALSHA/NOSCRIPT/SCRIPT LOAD flow, GET/SET PX NX/DEL/INCR/PEXPIRE/TIME/XADD/XRANGE/XREVRANGE/XLEN/XTRIM, strings with TTL, streams with monotonic ids, per-node atomic script execution, Redis 7 Lua<->RESP conversion) and a Lua 5.1 subset interpreter, checked at every start by 227 hand-computed expectations incl. every branch of the six scripts on frozen reference copies; anything outside the emulated subset makes the run inconclusive. The replica loop is the harness's mirror of MainTask::try_to_produce_block plus the importer. Interleavings are those produced; stream trimming is not exercised; no clock skew between nodes (forced lease expiry stands in).",
+    },
 }
